@@ -213,7 +213,26 @@ def _segments(prog: Program, col: Collector, refs: Refs):
             for S in range(1, D + 1):
                 env = {dvar: D, svar: S}
                 tried += 1
-                if _ev(rem_if.test, env):
+                # conjuncts of the test that are not arithmetic on the duration and the segment count (a test on `trans`, say) may be
+                # false: the branch is then skipped, and the path below has to tile all D steps by itself
+                conj = rem_if.test.values if isinstance(rem_if.test, ast.BoolOp) and isinstance(rem_if.test.op, ast.And) else [rem_if.test]
+                known, opaque = [], []
+                for cj in conj:
+                    try:
+                        known.append(bool(_ev(cj, env)))
+                    except _NoEval:
+                        opaque.append(cj)
+                if opaque and all(known) and D % S and 1 < S < D:
+                    bad = bad or (D, S, f"the uneven split is skipped whenever `{norm(opaque[0])[:40]}` is false, and the {S} segments of {D // S} steps below cover "
+                                        f"{S * (D // S)} of the {D} steps: the last {D % S} transition(s) drop out of the product")
+                    continue
+                if opaque:
+                    if not all(known):
+                        pass  # the branch is not taken whatever the opaque conjunct says
+                    taken = False
+                else:
+                    taken = all(known)
+                if taken:
                     rs = sorted((_rng(c, env) for c in rem_slices), key=lambda r: (r[:1] or [D]))
                     cut = D - D % S
                     if rs[0] != list(range(0, cut)) or rs[1] != list(range(cut, D)):
